@@ -2,6 +2,7 @@
 import sys
 
 from sa import report, effects as E, rules_registry as RR, rules_confine as RC
+from sa import rules_repr as RREPR
 from sa import rules_extra as RX
 
 UNIVERSES = RR.FULL_LOADERS
@@ -39,6 +40,7 @@ def run(ctx, repo):
     RC.r_frontend_no_sink(ctx, repo, UNIVERSES)
     RC.r_unsafe_only_in_unsafe(ctx, repo, UNIVERSES)
     RX.r_getattr_chain(ctx, repo)
+    RREPR.r_merge_shape(ctx, repo)
 
 if __name__ == '__main__':
     sys.exit(report.main('C04', 'proof', run))
